@@ -51,8 +51,11 @@ func (g *Graph) KahnSort() TopoOrder {
 
 		// for each node m with an edge e from n to m do
 		for m := range g.adjacencyOut[n] {
-			// remove edge e from the graph
-			g.RemoveEdge(n, m)
+			// remove edge e from the graph. n and m are hash codes already:
+			// going through RemoveEdge would hash them a second time, which
+			// isn't the identity if a hash code is a VertexHashable itself.
+			delete(g.adjacencyOut[n], m)
+			delete(g.adjacencyIn[m], n)
 
 			// if m has no other incoming edges then
 			if len(g.adjacencyIn[m]) == 0 {
